@@ -5,11 +5,16 @@
    No Extract Constant / Extract Inductive of our own. *)
 Require Extraction.
 Require Import ExtrOcamlBasic.
-From Otter Require Import Base Sketch Seq Spec.
+From Otter Require Import Base Sketch Seq Spec Policy Wheel Maint.
 (* run with cwd = /verif/ocaml: the extracted files land in the current directory *)
 Extraction "model.ml"
   Base.wrapu Base.wraps Base.satadd Base.abs64
   Sketch.spread Sketch.rehash Sketch.roundup64 Sketch.roundup32
   Sketch.sketch0 Sketch.tbl Sketch.sample Sketch.bmask Sketch.ssize Sketch.inited Sketch.frequency Sketch.increment Sketch.reset Sketch.ensure_capacity Sketch.accept
   Seq.step Seq.cstate0 Seq.lookup Seq.get_node_quietly Seq.node_to_entry Seq.has_expired Seq.live_pairs
-  Seq.cmap Seq.cst Seq.mkState Seq.upd_map Seq.remove Spec.spec_step Spec.purge_st.
+  Seq.cmap Seq.cst Seq.mkState Seq.upd_map Seq.remove Spec.spec_step Spec.purge_st
+  Maint.mstate0 Maint.m_new Maint.m_retire Maint.m_read Maint.m_push Maint.m_maintenance Maint.m_set_maximum Maint.m_init_sketch
+  Maint.pol Maint.whl Maint.rbuf Maint.wbuf Maint.m_run_tasks
+  Policy.qwin Policy.qprob Policy.qprot Policy.maxi Policy.wsize Policy.wmax Policy.wwsize Policy.pmax Policy.pwsize Policy.sk Policy.store Policy.node_of
+  Policy.pstate Policy.pqueue Policy.pweight Policy.pkey
+  Wheel.wtime Wheel.wlevels Wheel.tid Wheel.tkey Wheel.wheel0 Wheel.wheel_add Wheel.wheel_delete Wheel.wheel_delete_expired Wheel.wheel_pos.
